@@ -407,6 +407,42 @@ def coq_gate(rep, prop, cone_files, extra_property_files=()):
     return pa["ok"]
 
 
+def coqchk_property(rep, prop, extra_property_files=()):
+    """thorough tier: re-check the compiled property file (and everything it depends on) with the independent checker and record
+    the axioms it reports; anything outside the allowed list, or a checker failure, is a violation (no failing input)."""
+    mods = ["PV.Properties.%s" % prop] + ["PV." + f[:-2].replace("/", ".") for f in extra_property_files]
+    with BuildLock():
+        rc, out, wall = run("timeout 2400 coqchk -silent -o -Q . PV %s" % " ".join(mods), cwd=COQ, timeout=2500)
+    axioms, on = [], False
+    for line in out.split("\n"):
+        if line.startswith("* Axioms:"):
+            on = True
+            rest = line[len("* Axioms:"):].strip()
+            if rest and rest != "<none>":
+                axioms.append(rest)
+            continue
+        if on:
+            if line.startswith("* ") or not line.strip():
+                if line.startswith("* "):
+                    on = False
+                continue
+            axioms.append(line.strip())
+    unsafe = [l for l in out.split("\n") if ("type-in-type" in l or "unsafe" in l or "positivity is assumed" in l) and "<none>" not in l]
+    rep.extra["coqchk"] = {"cmd": "coqchk -silent -o -Q . PV " + " ".join(mods), "exit": rc, "wall_s": round(wall, 1), "axioms": axioms,
+                           "unsafe_flags": unsafe}
+    if rc != 0:
+        rep.violation("coqchk rejects the compiled development of %s" % prop, {"kind": "proof-obligation", "broken": "coqchk " + " ".join(mods),
+                                                                             "log_tail": "\n".join(out.split("\n")[-30:])}, False, {"kind": "coqchk"})
+        return False
+    foreign = [a for a in axioms if not any(a.endswith(x) or x.endswith(a) or a.split(".")[-1] == x.split(".")[-1] for x in ALLOWED_AXIOMS)
+               and not any(a.startswith(pfx) or ("." + pfx) in a for pfx in ("PrimFloat.", "Uint63.", "PrimInt63.", "FloatAxioms.", "Coq.Floats", "Coq.Numbers.Cyclic.Int63"))]
+    if foreign or unsafe:
+        rep.violation("coqchk reports axioms / unsafe flags outside the allowed list: %s %s" % (foreign, unsafe),
+                      {"kind": "axioms", "axioms": axioms, "unsafe": unsafe}, False, {"kind": "axioms"})
+        return False
+    return True
+
+
 def setup_python_env():
     """make sure `import ribs` resolves to REPO's working tree"""
     if REPO not in sys.path:
